@@ -20,6 +20,10 @@ import Golib.Proof.C05Aligned
 import Golib.Proof.C05Facts
 import Golib.Proof.C05Rebuild
 import Golib.Proof.C05Driver
+import Golib.Proof.C05PtrAll
+import Golib.Proof.C05Stream
+import Golib.Proof.C05U32
+import Golib.Proof.C05Fuzzy
 
 namespace Golib.C05
 open Golib
@@ -348,6 +352,122 @@ example : (([[97, 98]] : List (List Nat)).foldl (fun t p => t.insert (decodeAll 
     ((([[97, 98]] : List (List Nat)).foldl (fun t p => t.insert (decodeAll p)) Trie.empty).rebuild.bind
       fun t' => t'.findAll [97, 98]) = some [[97, 98]] := by
   constructor <;> decide +kernel
+
+/-- The POINTER-level model (`Golib/Model/C05Ptr.lean`: a store of nodes with ids, per node a
+child array of `(rune, id)` maintained by `findChildIndex` + insertion shift as `Insert` does,
+`fail` ids, `isEnd`, `size`; `BuildFailureLinks` through the real queue model; the scan loops
+walking pointers) refines the label trie.  `Rep pt t lbl`: `lbl[id]` is the rune path of node
+`id`, the ids are exactly the nodes of the label trie `t`, every child array equals the label
+trie's (children's ids carry the extended labels), `isEnd` / `size` agree, and every `fail` id
+maps to `t.failOf`.
+* the zero value represents the empty trie;
+* `Insert` never panics, keeps the ids of old nodes and preserves `Rep`;
+* whenever the label-level `BuildFailureLinks` succeeds (it always does on a `Built` trie:
+  `c05_rebuild_eq_build`) the pointer-level one succeeds and preserves `Rep` — the failure
+  pointers are the label trie's `failOf`;
+* in every represented state every child array is strictly increasing (sorted, duplicate-free);
+* the pointer-level `find` / `Match` / `FindAll` return what the label-level ones return.
+Hence by induction every pointer state reachable by Insert / BuildFailureLinks represents the
+label trie of the patterns inserted so far; the `dump` of the oracle driver is printed from
+this pointer model and compared with the reflective dump of the real heap. -/
+theorem c05_pointer_refines_label :
+    Rep PTrie.empty Trie.empty [[]] ∧
+    (∀ (pt : PTrie) (t : Trie) (lbl : List Label) (p : List Step), Rep pt t lbl →
+      ∃ pt' lbl', pt.insert p = some pt' ∧ Rep pt' (t.insert p) (lbl ++ lbl')) ∧
+    (∀ (pt : PTrie) (t : Trie) (lbl : List Label) (F : FailTab), Rep pt t lbl →
+      buildFailFrom t.pats t.fail = some F →
+      ∃ pt', pt.build = some pt' ∧ Rep pt' { t with fail := F } lbl) ∧
+    (∀ (pt : PTrie) (t : Trie) (lbl : List Label), Rep pt t lbl →
+      ∀ (id : Nat) (nd : PNode), pt.nodes[id]? = some nd → StrictSorted nd.vals) ∧
+    (∀ (pt : PTrie) (t : Trie) (lbl : List Label) (text : List Nat), Rep pt t lbl →
+      (∀ r, t.find text = some r → pt.find text = some r) ∧
+      (∀ b, t.match text = some b → pt.match text = some b) ∧
+      (∀ ws, t.findAll text = some ws → pt.findAll text = some ws)) :=
+  ⟨rep_empty, fun pt t lbl p h => pinsert_rep pt t lbl p h,
+    fun pt t lbl F h hb => pbuild_rep pt t lbl h F hb,
+    fun _ _ _ h id nd hn => rep_children_sorted h id nd hn,
+    fun pt t lbl text h => ⟨fun r hr => pfind_api pt t lbl h text r hr,
+      fun b hb => pmatch_api pt t lbl h text b hb, fun ws hw => pfindAll_api pt t lbl h text ws hw⟩⟩
+
+/-- `c05_find_exact` / `c05_find_iff` / `c05_match_iff` / `c05_findall_exact` restated for the
+pointer model: `Insert`* + `BuildFailureLinks` on the zero value never panic, and the
+pointer-level `find`, `Match`, `FindAll` are exact. -/
+theorem c05_pointer_find_exact (pats : List (List Nat)) (text : List Nat) (hp : ∀ p ∈ pats, Bytes p)
+    (ht : Bytes text) :
+    ∃ pt scopes b ws, PTrie.ofPatterns pats = some pt ∧ pt.find text = some scopes ∧
+      pt.match text = some b ∧ pt.findAll text = some ws ∧
+      C06.SortedByStop scopes ∧ scopes.Nodup ∧
+      (∀ s, s ∈ scopes ↔ ∃ A p B, text = A ++ p ++ B ∧ p ∈ pats ∧ p ≠ [] ∧ Aligned A p B ∧
+        s = ⟨(A.length : Int), ((A.length + p.length : Nat) : Int)⟩) ∧
+      (∀ A p B, text = A ++ p ++ B → p ∈ pats → p ≠ [] → ValidUtf8 p →
+        (⟨(A.length : Int), ((A.length + p.length : Nat) : Int)⟩ : Scope) ∈ scopes) ∧
+      (b = true → ∃ A p B, text = A ++ p ++ B ∧ p ∈ pats ∧ p ≠ []) ∧
+      (∀ A p B, text = A ++ p ++ B → p ∈ pats → p ≠ [] → ValidUtf8 p → b = true) ∧
+      ws.length = scopes.length ∧ (∀ w ∈ ws, w ∈ pats) := by
+  obtain ⟨pt, t, lbl, hpt, hbuilt, hrep⟩ := pofPatterns_rep pats
+  obtain ⟨scopes, hf, hs, hnd, _, _, hcomp⟩ := c05_find_exact pats text hp ht t hbuilt
+  obtain ⟨scopes', hf', _, hiff⟩ := c05_find_iff pats text hp ht t hbuilt
+  rw [hf] at hf'; cases hf'
+  obtain ⟨b, hm, hb1, hb2⟩ := c05_match_iff pats text hp ht t hbuilt
+  obtain ⟨scopes2, ws2, hf2, hfa2, hlen, _⟩ := c05_findall_exact pats text hp ht t hbuilt
+  rw [hf] at hf2; cases hf2
+  have hwsmem : ∀ w ∈ ws2, w ∈ pats := by
+    obtain ⟨t3, b3, sc3, ws3, hb3, _, _, hfa3, _, hw3, _⟩ := c05_byte_exact pats text hp ht
+    rw [hbuilt] at hb3; cases hb3
+    rw [hfa2] at hfa3; cases hfa3
+    exact hw3
+  exact ⟨pt, scopes, b, ws2, hpt, pfind_api pt t lbl hrep text scopes hf,
+    pmatch_api pt t lbl hrep text b hm, pfindAll_api pt t lbl hrep text ws2 hfa2,
+    hs, hnd, hiff, hcomp, hb1, hb2, hlen, hwsmem⟩
+
+/-- he, she, his, hers through the pointer model: ten nodes, the same scopes as the label trie. -/
+example : (PTrie.ofPatterns [[104, 101], [115, 104, 101], [104, 105, 115], [104, 101, 114, 115]]).bind
+      (fun pt => (pt.find [117, 115, 104, 101, 114, 115]).map fun r => (pt.nodes.length, r))
+    = some (10, [⟨1, 4⟩, ⟨2, 4⟩, ⟨2, 6⟩]) := by
+  decide +kernel
+
+/-- The scan loops AS CODED — decode one rune at position `i`, step the automaton, advance `i` by
+the rune's width (`Trie.findStreaming`, `Trie.matchStreaming`, `Golib/Model/C05Stream.lean`) —
+equal the model loops that run over the pre-decoded text, for every byte text and every trie. -/
+theorem c05_stream_eq_decoded (t : Trie) (text : List Nat) (ht : Bytes text) :
+    t.findStreaming text = t.find text ∧ t.matchStreaming text = t.match text :=
+  stream_eq_decoded t text ht
+
+/-- Magnitude guard for the `uint32` counters of `trieNodeQueue` (modelled as `Nat`): along any
+run from `Init(10)` with at most `n` pushes, `tail ≤ n` and `cap ≤ max 10 (2n)`
+(`Queue.Bound`, preserved by `push` / `pop`), and while `n + 1 < 2^31` the operations computed
+modulo `W` = 2^32 as Go computes them (`push32`, `pop32`, `isFull32`) are the `Nat` operations of
+the model.  `BuildFailureLinks` pushes every non-root node once, so the model is exact for
+tries with fewer than 2^31 − 1 nodes; beyond that the theorems of this file do not apply.
+(`W` is a variable equal to 4294967296 so that no term has the shape `x + 4294967296`.) -/
+theorem c05_queue_no_wrap :
+    (Queue.init 10).Bound 0 ∧
+    (∀ (q q' : Queue) (x : Label) (n : Nat), q.Inv → q.Bound n → q.push x = some q' → q'.Bound (n + 1)) ∧
+    (∀ (q q' : Queue) (x : Label) (n : Nat), q.Bound n → q.pop = some (x, q') → q'.Bound n) ∧
+    (∀ (W : Nat), W = 4294967296 → ∀ (q : Queue) (x : Label) (n : Nat), q.Inv → q.Bound n →
+      n + 1 < 2147483648 →
+      q.isFull32 W = q.isFull ∧ q.push32 W x = q.push x ∧ q.pop32 W = q.pop) :=
+  ⟨Queue.bound_init, fun q q' x n hi hb hp => Queue.bound_push q q' x n hi hb hp,
+    fun q q' x n hb hp => Queue.bound_pop q q' x n hb hp,
+    fun W hW q x n hi hb hn => queue_no_wrap W hW q x n hi hb hn⟩
+
+/-- What `FuzzySearch(key)` returns for a non-empty key (the property asks soundness only; this
+is the exact specification the correspondence check compares the code with): never a panic,
+and exactly `fuzzySpec` — nothing if after some rune no non-empty suffix of the runes read so
+far is a trie node (`alive`); otherwise, for every non-empty suffix `n` of the key's runes
+that is a trie node, longest first (`chainOf`: the failure chain of the automaton state), the
+pattern `n` itself if it is one, followed by the patterns strictly below `n` in the visiting
+order of the explicit-stack DFS (`below`).  Order and multiplicities included: a pattern below
+several chain nodes is listed once per chain node. -/
+theorem c05_fuzzy_spec (pats : List (List Nat)) (key : List Nat) (hp : ∀ p ∈ pats, Bytes p)
+    (hk : Bytes key) (hne : key ≠ []) (t : Trie) (hbuilt : Trie.ofPatterns pats = some t) :
+    t.fuzzySearch key = some (fuzzySpec t.pats (lab (decodeAll key))) :=
+  fuzzySearch_spec pats hp key hk hne t hbuilt
+
+/-- aa, aaa, key `aa`: the chain is `aa`, `a`; both patterns lie below both chain nodes and are
+listed twice. -/
+example : (Trie.ofPatterns [[97, 97], [97, 97, 97]]).bind (fun t => t.fuzzySearch [97, 97])
+    = some [[97, 97], [97, 97, 97], [97, 97], [97, 97, 97]] := by decide +kernel
 
 /-- The source expressions and statements of `algz/trie.go` the model is written against
 (re-extracted by go/ast on every run into `Golib/Gen/FactsC05.lean`) are the ones the model
